@@ -412,11 +412,16 @@ func (y *sys) oracle(ev string) bool {
 			return false
 		}
 		for _, f := range frames {
-			if f.length > e.maxFrame && y.focus == "C09" {
+			if f.length > e.maxFrame && (y.focus == "C09" || f.length > e.maxFrameEver) {
 				sig := "frame-exceeds-max-frame-size"
 				if f.length <= e.maxFrameEver {
 					// the frame was cut to the limit in force when the relay accepted it and queued; the receiver lowered its limit since
 					sig = "frame-exceeds-max-frame-size/queued-before-the-limit-was-lowered"
+				}
+				if y.focus == "C10" {
+					// a conforming receiver answers such a frame with FRAME_SIZE_ERROR: what it carries is never decoded
+					// (frames cut before the receiver lowered its limit are filed under C09's known finding only)
+					sig = "frame-undecodable/exceeds-max-frame-size"
 				}
 				x.Failf(sig, "after %s: %s received a %v frame with %d payload octets, its SETTINGS_MAX_FRAME_SIZE is %d", ev, e.name, f.typ, f.length, e.maxFrame)
 				return false
@@ -809,6 +814,7 @@ func flowScenarioCfg(x *explore.X, depth int, reduced bool) {
 					evs = append(evs, event{fmt.Sprintf("A:DATA(s%d,%d)", s, n), func() { a.sendData(s, payload(n), 0, false) }})
 				}
 				evs = append(evs, event{fmt.Sprintf("A:DATA(s%d,0,ES)", s), func() { a.sendData(s, nil, 0, true); ended[s] = true }})
+				evs = append(evs, event{fmt.Sprintf("A:DATA(s%d,3,ES)", s), func() { a.sendData(s, payload(3), 0, true); ended[s] = true }})
 			}
 		}
 		if !ended[1] {
@@ -1167,10 +1173,10 @@ func testH2(t *testing.T, prop string) {
 	var s *explore.Suite
 	if prop == "C09" {
 		s = explore.NewSuite(t, "C09", "model_checking",
-			"a real relay pair (newRelay x2, relayFrames running) between two raw-frame endpoints on simulated pipes; (flow) receiver window w in {8,16} x data direction x connection window {ample, w+4 left} then EVERY sequence of depth 3 (quick; depth 4 for the 8-octet window with both connection-window set-ups) / 5 (thorough) over the menu {DATA sizes 3/w/w+1 on 2 streams, padded DATA, empty END_STREAM DATA, RST, trailers, WINDOW_UPDATE stream/connection by 1/w, SETTINGS_INITIAL_WINDOW_SIZE down (w/2) and up (2w)} with explicit-state dedupe on (relay windows and queues, receiver ledger); (frame-size) SETTINGS_MAX_FRAME_SIZE changes of both endpoints x DATA of 16384..40000 octets x header blocks of 20000/40000 octets x PUSH_PROMISE, depth 3/4; oracles at every quiescent state: every DATA frame fits the credit its receiver had granted on stream and connection, no frame exceeds the receiver's MAX_FRAME_SIZE, WINDOW_UPDATEs returned to a sender = flow-controlled octets (incl. padding) it sent on stream and connection, no queued frame that fits is held back")
+			"a real relay pair (newRelay x2, relayFrames running) between two raw-frame endpoints on simulated pipes; (flow) receiver window w in {8,16} x data direction x connection window {ample, w+4 left} then EVERY sequence of depth 3 (quick; depth 4 for the 8-octet window with both connection-window set-ups) / 5 (thorough) over the menu {DATA sizes 3/w/w+1 on 2 streams, padded DATA, empty and non-empty END_STREAM DATA, RST, trailers, WINDOW_UPDATE stream/connection by 1/w, SETTINGS_INITIAL_WINDOW_SIZE down (w/2) and up (2w)} with explicit-state dedupe on (relay windows and queues, receiver ledger); (frame-size) SETTINGS_MAX_FRAME_SIZE changes of both endpoints x DATA of 16384..40000 octets x header blocks of 20000/40000 octets x PUSH_PROMISE, depth 3/4; oracles at every quiescent state: every DATA frame fits the credit its receiver had granted on stream and connection, no frame exceeds the receiver's MAX_FRAME_SIZE, WINDOW_UPDATEs returned to a sender = flow-controlled octets (incl. padding) it sent on stream and connection, no queued frame that fits is held back")
 	} else {
 		s = explore.NewSuite(t, "C10", "model_checking",
-			"a real relay pair between two raw-frame endpoints with their own HPACK state; (fidelity) EVERY sequence of depth 3 (quick) / 4 (thorough) over a menu of ~25-40 enabled events on 2 streams in both directions {HEADERS plain / with priority / END_STREAM / split by the sender into HEADERS+CONTINUATION at several points / 20000-octet block, DATA small / padded / 20000 octets / empty END_STREAM, trailers (+CONTINUATION), RST_STREAM, PUSH_PROMISE, PRIORITY, PING, SETTINGS incl. HEADER_TABLE_SIZE 0/4096, SETTINGS ack, GOAWAY}; (flow) the flow family of C09 (w in {8,16} x direction x connection window {ample, w+4 left}, EVERY sequence of depth 3 quick - depth 4 for the 8-octet window - / 5 thorough, the visiting order of the per-stream queues explored) with its no-stranding and final-delivery oracles; at every quiescent state the receiver's decoded element sequence per stream (header lists, concatenated DATA, END_STREAM position, RST code, PUSH_PROMISE) must be a prefix of what the sender emitted, connection-level frames must be relayed in order, and at the end everything emitted must have been decoded")
+			"a real relay pair between two raw-frame endpoints with their own HPACK state; (fidelity) EVERY sequence of depth 3 (quick) / 4 (thorough) over a menu of ~25-40 enabled events on 2 streams in both directions {HEADERS plain / with priority / END_STREAM / split by the sender into HEADERS+CONTINUATION at several points / 20000-octet block, DATA small / padded / 20000 octets / empty END_STREAM, trailers (+CONTINUATION), RST_STREAM, PUSH_PROMISE, PRIORITY, PING, SETTINGS incl. HEADER_TABLE_SIZE 0/4096, SETTINGS ack, GOAWAY}; (flow) the flow family of C09 (w in {8,16} x direction x connection window {ample, w+4 left}, EVERY sequence of depth 3 quick - depth 4 for the 8-octet window - / 5 thorough, the visiting order of the per-stream queues explored) with its no-stranding and final-delivery oracles; (frame-size) the frame-size family of C09 (endpoints announcing different SETTINGS_MAX_FRAME_SIZE, header blocks of 20000/40000 octets, PUSH_PROMISE, large DATA; depth 3/4): a frame larger than any limit its receiver ever announced cannot be decoded by a conforming receiver; at every quiescent state the receiver's decoded element sequence per stream (header lists, concatenated DATA, END_STREAM position, RST code, PUSH_PROMISE) must be a prefix of what the sender emitted, connection-level frames must be relayed in order, and at the end everything emitted must have been decoded")
 	}
 	s.Assume = []string{"the iteration order of the relay's per-stream queue map (Go leaves it unspecified) is owned by the harness through a build-time rewrite of the range statement: every rotation of the sorted stream ids is an explored choice", "the harness copies the relay wiring of Config.Proxy (which dials TLS itself and cannot run on the simulated network); the connection preface is outside the harness", "golang.org/x/net/http2.Framer and hpack are the endpoints' codecs", "(relay-interleavings) sync.Mutex / atomics / go statements of relay.go are redirected at build time to a cooperative scheduler: processFrame(client frames) || processFrame(server frames) || the two frame writers run as four scheduler threads over pre-loaded frames, all interleavings with at most 1 (quick) / 2 (thorough) preemptions; in the other families events are separated by quiescence"}
 	q, th := 3, 5
@@ -1192,6 +1198,8 @@ func testH2(t *testing.T, prop string) {
 		s.Add(explore.Scenario{Name: "flow-quick", Remote: true, Tiers: []string{"quick"}, Run: runBubble(t, func(x *explore.X) { flowScenario(x, q) })})
 		s.Add(explore.Scenario{Name: "flow-quick-deep", Remote: true, Tiers: []string{"quick"}, Run: runBubble(t, func(x *explore.X) { flowScenarioCfg(x, q+1, true) })})
 		s.Add(explore.Scenario{Name: "flow-thorough", Remote: true, Tiers: []string{"thorough"}, Run: runBubble(t, func(x *explore.X) { flowScenario(x, th) })})
+		s.Add(explore.Scenario{Name: "frame-size-quick", Remote: true, Tiers: []string{"quick"}, Run: runBubble(t, func(x *explore.X) { frameSizeScenario(x, 3) })})
+		s.Add(explore.Scenario{Name: "frame-size-thorough", Remote: true, Tiers: []string{"thorough"}, Run: runBubble(t, func(x *explore.X) { frameSizeScenario(x, 4) })})
 	}
 	s.Main()
 }
